@@ -15,7 +15,7 @@ PROPS = {
     "C01": dict(
         title="Civil calendar facts are exactly the proleptic Gregorian calendar",
         verus=["itime", ("itime", "_static", STATIC), "kspec", "civiladd", "isoweek"],
-        kani_quick=["c01_civil"],
+        kani_quick=["c01_civil", "c01_isoweek"],
         kani_thorough=[],
         design_ref="DESIGN.md section 4, C01",
     ),
